@@ -194,6 +194,7 @@ class _SurfaceNormaliser(ast.NodeTransformer):
                             _Subst(uses[0], st.value).visit(nx)
                             del b[i]
                             self.count += 1
+                            i = max(i - 1, 0)  # the statement before may now be followed by its only use
                             continue
                     i += 1
 
@@ -229,7 +230,7 @@ class Module:
         # into their call sites, in memory only (see sa/inline.py)
         from . import dispatch, inline, relocate
         # dispatch tables the reference tree does not know are expanded back into conditional chains (see sa/dispatch.py)
-        self.expanded = dispatch.expand(self.tree, name)
+        self.expanded = dispatch.expand(self.tree, name) + dispatch.untuple_records(self.tree, name)
         # functions the reference tree knows under another name / nesting are put back first (see sa/relocate.py)
         self.relocated = relocate.restore(self.tree, name)
         self.inlined = inline.inline_new_helpers(self.tree, name)
